@@ -75,6 +75,7 @@ type predicate struct {
 	params []types.Object
 	// what the classifier learnt on the way (R2)
 	helpers map[string]*ast.CallExpr // list field -> call of the matching helper
+	root    ast.Node                 // body of the literal being classified
 	r2      map[string]func()
 }
 
@@ -84,6 +85,7 @@ func newPredicate(c *core.Ctx, name string) *predicate {
 		return nil
 	}
 	p := &predicate{c: c, fn: fn, info: fn.Pkg.TypesInfo, x: tt.New(cfgq.Of(c.Program, fn)), helpers: map[string]*ast.CallExpr{}, r2: map[string]func(){}}
+	p.x.Prog = c.Program
 	for _, f := range fn.Decl.Type.Params.List {
 		for _, n := range f.Names {
 			p.params = append(p.params, p.info.Defs[n])
@@ -99,7 +101,18 @@ func (p *predicate) isParam(e ast.Expr, i int) bool {
 
 // confList: e is conf.Options.<list field>.
 func (p *predicate) confList(e ast.Expr) (string, bool) {
-	return tt.IsConfField(p.info, e, "")
+	if f, ok := tt.IsConfField(p.info, e, ""); ok {
+		return f, true
+	}
+	// a local holding the list: blacklist := conf.Options.FilterKeyBlacklist
+	for _, root := range []ast.Node{p.root, p.fn.Decl.Body} {
+		if root != nil {
+			if f, ok := tt.IsConfField(p.info, tt.Resolve(p.info, root, e, 2), ""); ok {
+				return f, true
+			}
+		}
+	}
+	return "", false
 }
 
 func lenTest(info *types.Info, e ast.Expr) (arg ast.Expr, nonEmpty bool, ok bool) {
@@ -141,7 +154,11 @@ func commaOkMap(info *types.Info, root ast.Node, e ast.Expr) (types.Object, ast.
 
 // classify names the branch atoms of the five predicates.
 func (p *predicate) classify(l tt.Lit) (string, bool, bool) {
-	info, body := p.info, p.fn.Decl.Body
+	info, body := p.info, l.Root
+	if body == nil {
+		body = p.fn.Decl.Body
+	}
+	p.root = body
 	e := ast.Unparen(l.Expr)
 	if arg, pol, ok := lenTest(info, e); ok {
 		if f, ok := p.confList(arg); ok {
@@ -187,20 +204,21 @@ func (p *predicate) classify(l tt.Lit) (string, bool, bool) {
 		return "", false, false
 	}
 	if call, ok := e.(*ast.CallExpr); ok {
-		// helper(subject, conf.Options.<list>)
+		// helper(subject, conf.Options.<list>): exactly the subject and one list
 		f := core.CalleeFunc(info, call)
-		if f != nil && f.Pkg() != nil && strings.HasPrefix(f.Pkg().Path(), core.Module) {
-			for _, a := range call.Args {
-				if fld, ok := p.confList(a); ok {
-					p.helpers[fld] = call
-					return "match(" + fld + ")", true, true
-				}
+		if f != nil && f.Pkg() != nil && strings.HasPrefix(f.Pkg().Path(), core.Module) && len(call.Args) == 2 {
+			f0, ok0 := p.confList(call.Args[0])
+			f1, ok1 := p.confList(call.Args[1])
+			if ok0 != ok1 {
+				fld := f0 + f1
+				p.helpers[fld] = call
+				return "match(" + fld + ")", true, true
 			}
 		}
 		return "", false, false
 	}
 	if id, ok := e.(*ast.Ident); ok {
-		if m, k := commaOkMap(info, body, id); m != nil && p.isParam(k, 0) {
+		if m, k := commaOkMap(info, body, id); m != nil && p.isParam(l.In(k), 0) {
 			if v, ok := m.(*types.Var); ok && v.Parent() == v.Pkg().Scope() {
 				if v.Name() == "RedisCommands" {
 					return "known-command", true, true
